@@ -92,6 +92,11 @@ def cmd_replay(args):
 def main(argv):
     if argv and argv[0] == "gen":
         cmd_gen(argv[1:]); return 0
+    if argv and argv[0] == "baseline":
+        # record the inventory of closures/loops per contracted function (run on the tree the contracts were written for)
+        em = P.build()
+        json.dump(em.inventory, open(os.path.join(P.VERIF, "contracts", "BASELINE.json"), "w"), indent=0, sort_keys=True)
+        print("baseline: %d functions" % len(em.inventory)); return 0
     if argv and argv[0] == "dev":
         return cmd_dev(argv[1:])
     if argv and argv[0] == "replay":
